@@ -90,7 +90,8 @@ def make_harness(cases):
         if fmt == "dict":
             data = root.as_dict(serialization_options=opts)
         elif fmt == "json":
-            data = root.to_json(serialization_options=opts)
+            jv = e.pick(["str", "str-indent", "bytes"], "json_variant")
+            data = root.to_jsonb(serialization_options=opts) if jv == "bytes" else root.to_json(indent=jv.endswith("indent"), serialization_options=opts)
         elif fmt == "msgpck":
             data = root.to_msgpck(serialization_options=opts)
         else:
